@@ -512,3 +512,85 @@ func verifH_C05_compositions() {
 	}
 	verifReach("end")
 }
+
+//verif:harness id=C05 tier=quick witness=end bounds="nested deepObject: query parameter p with schema {a: {b: T}, l: array of T, k: T}, each part present or absent (at least one), array of 1-2 items given by index; leaf type T in {string,integer,number,boolean} (thorough: three independent types); every printable-ASCII leaf text of 1-2 bytes without [ ] = &; the decoded value is the nested object the keys spell out, typed by the schema; an ill-typed leaf is a ParseError"
+func verifH_C05_deepobject_nested() { verifC05DeepNested(false) }
+
+//verif:harness id=C05 tier=thorough witness=end bounds="nested deepObject as quick with three independent leaf types"
+func verifH_C05_deepobject_nested3() { verifC05DeepNested(true) }
+
+func verifC05DeepNested(independent bool) {
+	t1 := verifTypeNames[verifChoose("t1", 4)]
+	t2, t3 := t1, t1
+	if independent {
+		t2, t3 = verifTypeNames[verifChoose("t2", 4)], verifTypeNames[verifChoose("t3", 4)]
+	}
+	schema := &openapi3.SchemaRef{Value: &openapi3.Schema{Type: &openapi3.Types{"object"}, Properties: openapi3.Schemas{
+		"a": {Value: &openapi3.Schema{Type: &openapi3.Types{"object"}, Properties: openapi3.Schemas{"b": verifPrimSchema(t1)}}},
+		"l": {Value: &openapi3.Schema{Type: &openapi3.Types{"array"}, Items: verifPrimSchema(t2)}},
+		"k": verifPrimSchema(t3),
+	}}}
+	q := url.Values{}
+	want := map[string]any{}
+	allOK := true
+	leaf := func(name, typ string) any {
+		text := verifLeaf(name, 2, "[]=&")
+		v, ok := verifTyped(text, typ)
+		if !ok {
+			allOK = false
+		}
+		q[name] = []string{text}
+		return v
+	}
+	parts := 1 + verifChoose("parts", 7) // non-empty subset of {a, l, k}
+	if parts&1 != 0 {
+		want["a"] = map[string]any{"b": leaf("p[a][b]", t1)}
+	}
+	if parts&2 != 0 {
+		items := []any{leaf("p[l][0]", t2)}
+		if verifChoose("two", 2) == 1 {
+			items = append(items, leaf("p[l][1]", t2))
+		}
+		want["l"] = items
+	}
+	if parts&4 != 0 {
+		want["k"] = leaf("p[k]", t3)
+	}
+	explode := true
+	param := &openapi3.Parameter{Name: "p", In: "query", Style: "deepObject", Explode: &explode, Schema: schema}
+	input := &RequestValidationInput{QueryParams: q, Request: &http.Request{Header: http.Header{}, URL: &url.URL{}}}
+	got, found, err := decodeStyledParameter(param, input)
+	if !allOK {
+		_, isParse := err.(*ParseError)
+		verifAssert(err != nil && isParse, "C05 nested deepObject: a leaf that is not a serialisation of its declared type yields a ParseError")
+		verifReach("end")
+		return
+	}
+	verifAssert(err == nil && found, "C05 nested deepObject: a well-formed serialisation decodes and is found")
+	if err != nil {
+		return
+	}
+	obj, ok := got.(map[string]any)
+	verifAssert(ok && len(obj) == len(want), "C05 nested deepObject: the decoded object has exactly the parts that were sent")
+	if !ok {
+		return
+	}
+	if w, has := want["a"]; has {
+		a, ok := obj["a"].(map[string]any)
+		verifAssert(ok && len(a) == 1 && verifSame(a["b"], w.(map[string]any)["b"]), "C05 nested deepObject: the nested object decodes to its typed member")
+	}
+	if w, has := want["l"]; has {
+		l, ok := obj["l"].([]any)
+		wl := w.([]any)
+		verifAssert(ok && len(l) == len(wl), "C05 nested deepObject: the array has the items that were sent")
+		if ok && len(l) == len(wl) {
+			for i := range wl {
+				verifAssert(verifSame(l[i], wl[i]), "C05 nested deepObject: array items decode in index order to their typed values")
+			}
+		}
+	}
+	if w, has := want["k"]; has {
+		verifAssert(verifSame(obj["k"], w), "C05 nested deepObject: the flat member decodes to its typed value")
+	}
+	verifReach("end")
+}
